@@ -10,6 +10,7 @@ import json
 import os
 import re
 import shutil
+import signal
 import subprocess
 import sys
 import tempfile
@@ -129,14 +130,30 @@ def run_driver(ctx, argv, timeout=3600, env=None, cwd=None, stdin=None):
     e["GOTMPDIR"] = ctx.mkdir("gotmp")
     if env:
         e.update(env)
+    if os.environ.get("VERIF_DRIVER_TIMEOUT"):
+        timeout = min(timeout, int(os.environ["VERIF_DRIVER_TIMEOUT"]))
+    p = subprocess.Popen(argv, cwd=cwd or ctx.scratch, env=e, stdout=subprocess.PIPE, stderr=subprocess.STDOUT, text=True,
+                         errors="replace", stdin=stdin)
     try:
-        r = subprocess.run(argv, cwd=cwd or ctx.scratch, env=e, stdout=subprocess.PIPE,
-                           stderr=subprocess.STDOUT, text=True, timeout=timeout, stdin=stdin)
+        out, _ = p.communicate(timeout=timeout)
     except subprocess.TimeoutExpired:
-        raise NoVerdict("driver timed out: %s" % " ".join(argv[:3]))
-    if r.returncode != 0:
-        raise NoVerdict("driver failed (%d): %s\n%s" % (r.returncode, " ".join(argv[:4]), r.stdout[-6000:]))
-    return r.stdout
+        # ask the Go runtime for its goroutines before killing: a hung driver is a harness problem to be diagnosed
+        p.send_signal(signal.SIGQUIT)
+        try:
+            out, _ = p.communicate(timeout=20)
+        except subprocess.TimeoutExpired:
+            p.kill()
+            out, _ = p.communicate()
+        dump = os.path.join(EVIDENCE, "driver-timeout-%s.txt" % os.path.basename(argv[0]))
+        try:
+            with open(dump, "w") as fh:
+                fh.write(" ".join(argv) + "\n" + (out or "")[-400000:])
+        except OSError:
+            dump = "(not written)"
+        raise NoVerdict("driver timed out after %ds: %s (goroutine dump: %s)" % (timeout, " ".join(argv[:3]), dump))
+    if p.returncode != 0:
+        raise NoVerdict("driver failed (%d): %s\n%s" % (p.returncode, " ".join(argv[:4]), out[-6000:]))
+    return out
 
 
 # --------------------------------------------------------------------------
